@@ -78,7 +78,7 @@ def generate(seed: int, run: int, tier: str) -> dict:
             if k == "jump":
                 ops.append({"op": "jump", "prefix": rng.choice(["SYM", "SYM", "FUN", "QTY", "SYS", "VEC"]), "to": _boundary(rng)})
             elif k == "bulk":
-                ops.append({"op": "bulk", "kind": rng.choice(["symbol", "function", "quantity"]), "k": rng.choice([1, 5, 9, 20])})
+                ops.append({"op": "bulk", "kind": rng.choice(["symbol", "function", "quantity"]), "k": rng.choice([1, 5, 9, 20, 20, 300, 9000])})
             elif k == "import":
                 ops.append({"op": "import", "m": rng.choice(["symplyphysics.laws.dynamics.acceleration_is_force_over_mass", "symplyphysics.definitions.density_from_mass_volume", "symplyphysics.laws.kinematics.position_via_constant_acceleration_and_time", "symplyphysics.laws.thermodynamics.gas_pressure_change_from_temperature"])})
             else:
